@@ -87,6 +87,13 @@ def maildir_sim(base_dir: str, *, layout: str = '++', users: Any = None,
     from pymap.backend.maildir import Config, Login, Identity
     from pymap.user import UserMetadata, Passwords
     sim = Sim()
+    if overrides.pop('threads', False):
+        # what the command line does: every backend call runs in a worker
+        # thread (threading subsystem: thread-local event loops, threading
+        # read-write locks and events)
+        from .simloop import CountingExecutor
+        sim.executor = CountingExecutor(4)
+        overrides['subsystem'] = Subsystem.for_threading(sim.executor)
     overrides.setdefault('hash_context', HASH)
     overrides.setdefault('invalid_user_sleep', 0.0)
     overrides.setdefault('cpu_subsystem', Subsystem.for_asyncio())
